@@ -155,3 +155,52 @@ fn h_w_syn_with_data() {
     assert_eq!(tcb.status(), State::Established);
     assert_eq!(tcb.receive().to_vec(), b"world".to_vec(), "active side: data carried by the SYN,ACK");
 }
+
+// ---------------------------------------------------------------------------
+// Witness scenarios ported from the seed corpus (two-endpoint exchanges on the real Tcb; see units/tcb/w/*.rs)
+// ---------------------------------------------------------------------------
+#[cfg(vx_replay)]
+#[path = "/verif/units/tcb/w/partial_ack.rs"]
+mod w_partial_ack;
+#[cfg(vx_replay)]
+#[path = "/verif/units/tcb/w/fin_reack.rs"]
+mod w_fin_reack;
+#[cfg(vx_replay)]
+#[path = "/verif/units/tcb/w/close_loss.rs"]
+mod w_close_loss;
+#[cfg(vx_replay)]
+#[path = "/verif/units/tcb/w/window_partial_ack.rs"]
+mod w_window_partial_ack;
+
+//# id=witness.partial_ack_keeps_the_unacknowledged_tail props=C01,C02,C12,C17 kind=witness pair=tcb.Tcb.remove_acked_from_retransmission.safety,tcb.Tcb.remove_acked_from_retransmission.keeps_only_unacknowledged,tcb.Tcb.remove_acked_from_retransmission.never_drops_unacknowledged
+// an acknowledgment that lands inside a queued segment must leave that segment on the retransmission queue
+#[cfg(vx_replay)]
+#[test]
+fn h_w_partial_ack() {
+    w_partial_ack::late_reader_partial_acknowledgment();
+}
+
+//# id=witness.partial_ack_respects_the_window props=C17 kind=witness pair=tcb.Tcb.remove_acked_from_retransmission.safety,tcb.Tcb.segments.new_data_stays_inside_send_window
+// after a partial ACK no new data may go beyond the right edge of the advertised window
+#[cfg(vx_replay)]
+#[test]
+fn h_w_window_partial_ack() {
+    w_window_partial_ack::partial_ack_does_not_send_beyond_advertised_window();
+}
+
+//# id=witness.unacknowledged_fin_is_retransmitted props=C03 kind=witness pair=tcb.Tcb.remove_acked_from_retransmission.safety
+// a FIN stays on the retransmission queue until it is acknowledged itself; both ends are released after a lost FIN
+#[cfg(vx_replay)]
+#[test]
+fn h_w_close_loss() {
+    w_close_loss::close_with_data_in_flight_and_lost_fin();
+    w_close_loss::close_with_lost_fin_eventually_releases_both();
+}
+
+//# id=witness.retransmitted_fin_is_reacknowledged props=C03,C01 kind=witness pair=tcb.Tcb.process_segment.fin_is_acknowledged_even_when_retransmitted
+// simultaneous close with both FIN acknowledgments lost: the retransmitted FINs must be acknowledged again
+#[cfg(vx_replay)]
+#[test]
+fn h_w_fin_reack() {
+    w_fin_reack::simultaneous_close_with_both_fin_acks_lost();
+}
